@@ -189,6 +189,15 @@ def prepare(c, model, input_db, span, kwargs, tag="kalman_filter", allow_ant=Fal
             return None
     except Exception:
         pass
+    # ... and so is a model whose change of basis between the triangular and the square state is numerically singular (an unstable
+    # root at 1.07 next to the rank condition almost failing: cond(Ua) = 9e14, entries of T of the order 1e15): the filter runs on
+    # the triangular form, the oracle on the square one, and neither means anything
+    try:
+        if np.linalg.cond(np.asarray(J["sol"].Ua, dtype=float)) > 1e8 or np.max(np.abs(T), initial=0) > 1e8:
+            c.inconc(f"{tag}:square-solution-numerically-degenerate")
+            return None
+    except Exception:
+        pass
     if not n_unit:
         mu0, S0 = gauss.stationary_init(T, K, P, J["su_init"])
         jt = gauss.Joint(T, K, P, Z, D, H, mu0, S0, J["su"], J["sw"], J["ubar"], J["wbar"], None, N)
@@ -617,7 +626,7 @@ def variant_law(c, case, m, data, span, res0):
         ik = info2[k] if isinstance(info2, (list, tuple)) else info2
         c.event("variant-law", "joint-call==single-variant-models", key=("vlaw", family, k, bool(case["opts"].get("rescale_variance")), bool(mv["params"]), bool(mv["stds"])), nontrivial=k >= 1)
         a, b = float(ik["neg_log_likelihood"]), float(infok["neg_log_likelihood"])
-        if not ((np.isnan(a) and np.isnan(b)) or abs(a - b) <= 1e-7 * (1 + abs(b))):
+        if not ((np.isnan(a) and np.isnan(b)) or a == b or abs(a - b) <= 1e-7 * (1 + abs(b))):   # (inf == inf)
             c.violation("variant-law:likelihood-differs", f"variant {k}: neg_log_likelihood {a!r} in the two-variant call, {b!r} for the single-variant model with the same values", case=case)
             return
         for part in ("predict_med", "predict_std", "update_med", "update_std", "smooth_med", "smooth_std", "predict_err"):
